@@ -17,10 +17,10 @@ func init() {
 		Level: "Decides that resharding stops (flushes) the old shards before starting new ones and that only Start/Stop/reshardLoop start or stop shards; that each of the four Append* loops leaves a sample only by counting it as dropped, by a successful enqueue, or by returning false on shutdown, and enqueues under the same ref whose labels it looked up; " +
 			"that the shard is chosen from the series ref and the shard count alone, under the shard lock and after the soft-shutdown test; that a partial batch is handed out only when no full batch is queued before it, is retried while the hand-over channel is full and is discarded only after that; " +
 			"that external labels are attached before write relabeling and the relabeled set is what is stored; and that the watcher forwards every sample-bearing record type.",
-		Note:     "Trusted: go/packages, go/types, go/cfg; receiver-insensitive lock identification; rule tables in checker/c40.go.",
-		Covers:   "QueueManager.Append/AppendExemplars/AppendHistograms/AppendFloatHistograms, StoreSeries, SeriesReset, reshardLoop, shards.start/stop/enqueue, queue.Append/Batch/FlushAndShutdown/tryEnqueueingBatch, runShard, Watcher.readSegment.",
-		NotCover: "retry/backoff timing, contents of requests, age-limit arithmetic, order inside the fake client.",
-		Run:      runC40,
+		Note:           "Trusted: go/packages, go/types, go/cfg; receiver-insensitive lock identification; rule tables in checker/c40.go.",
+		Covers:         "QueueManager.Append/AppendExemplars/AppendHistograms/AppendFloatHistograms, StoreSeries, SeriesReset, reshardLoop, shards.start/stop/enqueue, queue.Append/Batch/FlushAndShutdown/tryEnqueueingBatch, runShard, Watcher.readSegment.",
+		NotCover:       "retry/backoff timing, contents of requests, age-limit arithmetic, order inside the fake client.",
+		Run:            runC40,
 		MinObligations: 70,
 	})
 }
@@ -190,7 +190,9 @@ func runC40(c *eng.Ctx) {
 			u, ok := n.(*ast.UnaryExpr)
 			return ok && u.Op.String() == "<-" && eng.ExprIsField(g.Info, u.X, p.Field("storage/remote:queue.batchQueue"))
 		})
-		sendQ := eng.Send("q.batchQueue <- q.batch", func(g *eng.Graph, ch ast.Expr) bool { return eng.ExprIsField(g.Info, ch, p.Field("storage/remote:queue.batchQueue")) })
+		sendQ := eng.Send("q.batchQueue <- q.batch", func(g *eng.Graph, ch ast.Expr) bool {
+			return eng.ExprIsField(g.Info, ch, p.Field("storage/remote:queue.batchQueue"))
+		})
 		// Batch(): the partial batch is handed out only if no full batch is queued before it (per-series order)
 		b := c.Fn("storage/remote:queue.Batch")
 		b.Dom("R3", recvQ, p.FieldUse("storage/remote:queue.batch"))
